@@ -98,6 +98,14 @@ def genOps2 : List (String × R String) := [
   ("g:b58_addr", do
       let (ty, pfx) ← tyPfx; let h ← bytes
       pure (ansG hexStr (Gen.address_to_string Crypto.sha256 Spec.B58.encode ty pfx pfx h))),
+  ("g:msg_recover_g", do
+      -- the recovery branch of PublicKey.__init__; python-ecdsa's from_public_key_recovery_with_digest replaced by the Spec's candidates
+      -- in recovery-id order (the list ends at the first id that yields no key)
+      let m ← bytes; let sig ← bytes
+      let rk := fun (rs dg : Bytes) =>
+        let c := (List.range 4).map (Spec.ecdsaRecover (Py.ofBE dg) (Py.ofBE (rs.take 32)) (Py.ofBE ((rs.drop 32).take 32)))
+        (Except.ok ((c.takeWhile Option.isSome).filterMap id) : Except PyErr (List (Nat × Nat)))
+      pure (ansG (fun (P : Nat × Nat) => s!"{hex (Py.beBytes 32 P.1)} {hex (Py.beBytes 32 P.2)}") (Gen.pubkey_recover Crypto.sha256 rk m sig))),
   ("g:sw_addr", do
       let hrp ← netHrp; let v ← nat; let prog ← bytes
       pure (ansG (fun (r : Option (List Char)) => match r with | some cs => hexStr (String.ofList cs) | none => "none")
